@@ -28,6 +28,7 @@ from concurrent.futures import ThreadPoolExecutor
 from common import *
 import c10_lib as L
 import c10_gen as G
+import content as CT
 
 CONSTS = {  # name -> (file, regex, value the model assumes)
     'UUID_MAX': ('cmdline/elem.h', r'#define\s+UUID_MAX\s+(\d+)', 128),
@@ -280,6 +281,125 @@ def check_saved(ctx, A, now, tag, replay, hash_opt=(), clamp=False, before=None)
 
 
 # ---------------------------------------------------------------------------------------
+# history oracle (independent decoder harness/py/content.py): the hash saved with a DELETED block
+
+def history_check(ctx, before, after, kind, tag, replay, hs):
+    """`before` / `after`: the content file loaded by a command and the one it saved.  Every DELETED block of `after` must carry
+    the hash the same disk had at the same parity position in `before`:
+      kind 'other' (scrub, rehash, rewrite: no scan, past hashes kept): the hash of the DELETED block that was there;
+      kind 'sync'  (scan + clear_past_hash): the hash of the BLK block that was there (its file was removed by this scan),
+                   or the INVALID marker (all zero) when the position held a CHG / REP / DELETED block;
+      kind 'sync_R' (--force-realloc turns BLK into REP while loading): BLK hash or INVALID.
+    Positions are never renumbered by a save: a DELETED block cannot appear where the disk had nothing."""
+    if before is None or after is None or before == after:
+        return
+    try:
+        pb = CT.parse(before, 16)
+        pa = CT.parse(after, 16)
+    except Exception as e:
+        ctx.viol(tag + '_history', '%s: the independent decoder cannot read a content file written by the tool: %r' % (tag, e),
+                 dict(replay, before_hex=before.hex(), after_hex=after.hex()))
+        return
+    zero = b'\0' * pa['hashsize']
+    nchk = 0
+    for name, d in pa['disks'].items():
+        if not d['deleted']:
+            continue
+        prev = pb['disks'].get(name, {'files': [], 'deleted': {}})
+        pmap = {}
+        for f in prev['files']:
+            for (st, pos, h) in f['blocks']:
+                pmap[pos] = (st, h)
+        for pos, h in prev['deleted'].items():
+            pmap.setdefault(pos, (CT.DELETED, h))
+        for pos, h in sorted(d['deleted'].items()):
+            nchk += 1
+            was = pmap.get(pos)
+            if was is None:
+                ok, why = False, 'the disk had no block at that position'
+            elif kind == 'other':
+                ok, why = (was[0] == CT.DELETED and was[1] == h), 'expected the hash of the DELETED block that was there (%s %s)' % (was[0], was[1].hex())
+            elif was[0] == CT.BLK:
+                ok = h == was[1] or (kind == 'sync_R' and h == zero)
+                why = 'expected the hash of the BLK block that was there (%s)' % was[1].hex()
+            else:
+                ok, why = h == zero, 'expected the INVALID marker: the position held a %s block' % was[0]
+            if not ok:
+                others = [q for q, (st2, h2) in pmap.items() if h2 == h and q != pos]
+                ctx.viol(tag + '_deleted_hash', '%s: after the save the DELETED block of disk %s at parity position %d carries hash %s; %s%s'
+                         % (tag, name, pos, h.hex(), why, ('; that hash belonged to position %s' % others) if others else ''),
+                         dict(replay, before_hex=before.hex(), after_hex=after.hex(), disk=name, position=pos))
+                return
+    with ctx.lock:
+        ctx.stats['deleted_hashes_checked_against_history'] = ctx.stats.get('deleted_hashes_checked_against_history', 0) + nchk
+
+
+def hole_scenario(ctx, idx, seed, root):
+    """a multi-block file is deleted while the other disks keep only SOME of its positions in use (holes strictly inside the run
+    of DELETED blocks), then the state is saved by partial / unprocessed syncs: state_write_content drops the DELETED blocks
+    of the unused positions out of the middle of the deleted extent (fs_position_clear_deleted -> fs_deallocate, split case)."""
+    import random
+    rng = random.Random(seed)
+    nd = rng.choice([2, 2, 3, 4])
+    hs = rng.choice([16, 16, 8, 4])
+    npar = rng.choice([1, 2])
+    A = L.Array(root, ctx.tool, ctx.shim, ndisk=nd, npar=npar, hashsize=hs, ncontent=2)
+    T = 1500000000 + rng.randrange(0, 2 ** 28)
+    n = rng.choice([3, 3, 4, 5, 6, 8])
+    big = rng.randrange(nd)                      # the disk of the multi-block file
+    lead = rng.choice([0, 0, 1, 2])              # single-block files allocated before it (alphabetical order = allocation order)
+    log = []
+    replay = {'kind': 'hole', 'seed': seed, 'log': log}
+    for j in range(lead):
+        L.write_file(A.dpath(big, b'A%02d' % j), 1024, rng)
+    L.write_file(A.dpath(big, b'B_big'), (n - 1) * 1024 + rng.choice([1, 1024, 500]), rng)
+    L.write_file(A.dpath(big, b'C_keep'), rng.choice([1024, 2048]), rng)
+    m = lead + n + rng.choice([0, 1, 2])
+    for d in range(nd):
+        if d != big:
+            for j in range(m):
+                L.write_file(A.dpath(d, b'p%02d' % j), 1024, rng)
+    rc, out = A.run(['sync'], now=T)
+    check_saved(ctx, A, T, 'H%d_0_sync' % idx, replay)
+    # delete the big file; vacate a non-empty set of positions strictly inside its run on every other disk
+    inner = list(range(lead + 1, lead + n - 1))
+    holes = set(rng.sample(inner, rng.randrange(1, len(inner) + 1)))
+    if rng.random() < 0.5 and len(inner) > 1:
+        holes.discard(rng.choice(inner))         # keep at least one inner position used when possible
+        if not holes:
+            holes = {inner[0]}
+    os.remove(A.dpath(big, b'B_big'))
+    for d in range(nd):
+        if d != big:
+            for j in sorted(holes):
+                os.remove(A.dpath(d, b'p%02d' % j))
+            # positions outside the holes: each stays used by at least one disk; others may go
+    others = [d for d in range(nd) if d != big]
+    for j in range(m):
+        if j not in holes:
+            keep = rng.choice(others)
+            for d in others:
+                if d != keep and rng.random() < 0.3 and os.path.exists(A.dpath(d, b'p%02d' % j)) and j != 0:
+                    os.remove(A.dpath(d, b'p%02d' % j))
+    log.append({'n': n, 'lead': lead, 'big_disk': big, 'holes': sorted(holes)})
+    steps = [rng.choice([['sync', '-S', str(m + n + 5), '-B', '1'], ['sync', '-B', '1'], ['sync', '-S', str(lead + n), '-B', '1']]),
+             rng.choice([['test-rewrite'], ['sync', '-B', '1', '-S', '1'], ['scrub', '-p', 'new', '-o', '0']]),
+             ['sync']]
+    for k, args in enumerate(steps):
+        T += rng.randrange(8, 3000)
+        before = A.content(0)
+        rc, out = A.run(args, now=T)
+        log.append(' '.join(args))
+        with ctx.lock:
+            ctx.stats['commands'] += 1
+            ctx.stats['hole_histories'] = ctx.stats.get('hole_histories', 0) + (1 if k == 0 else 0)
+        tag = 'H%d_%d_%s' % (idx, k + 1, args[0])
+        history_check(ctx, before, A.content(0), 'sync' if args[0] == 'sync' else 'other', tag, replay, hs)
+        check_saved(ctx, A, T, tag, replay)
+    shutil.rmtree(root, ignore_errors=True)
+
+
+# ---------------------------------------------------------------------------------------
 # route A: real arrays
 
 def scenario(ctx, idx, seed, steps, root):
@@ -376,6 +496,8 @@ def scenario(ctx, idx, seed, steps, root):
         now = T
         clamp = False
         before = None
+        loaded = A.content(0)
+        hkind = 'other'
         if op == 'sync':
             rc, out = A.run(hash_opt + ['sync'], now=T)
         elif op == 'partial':
@@ -414,6 +536,11 @@ def scenario(ctx, idx, seed, steps, root):
             rc, out = A.run(hash_opt + ['sync', '-S', '100000', '--test-force-content-write'], now=T)
         with ctx.lock:
             ctx.stats['commands'] += 1
+        if op in ('sync', 'partial', 'noop_flags'):
+            hkind = 'sync'
+        elif op == 'sync_nocopy':
+            hkind = 'sync_R'
+        history_check(ctx, loaded, A.content(0), hkind, tag, replay, hs)
         check_saved(ctx, A, now, tag, replay, hash_opt, clamp=clamp, before=before)
     shutil.rmtree(root, ignore_errors=True)
 
@@ -714,6 +841,8 @@ def replay_case(path):
     kind = rp.get('kind')
     if kind == 'scenario':
         scenario(ctx, 0, rp['seed'], rp['steps'], os.path.join(root, 'a'))
+    elif kind == 'hole':
+        hole_scenario(ctx, 0, rp['seed'], os.path.join(root, 'a'))
     elif kind == 'gen':
         toks = rp['state']
         s = L.parse_state(toks)
@@ -806,6 +935,8 @@ def main(tier, replay=None):
     with ThreadPoolExecutor(max_workers=NCPU) as ex:
         for i in range(nscen):
             jobs.append(ex.submit(scenario, ctx, i, rng.getrandbits(48), steps, os.path.join(base, 'A%d' % i)))
+        for i in range(60 if thorough else 16):
+            jobs.append(ex.submit(hole_scenario, ctx, i, rng.getrandbits(48), os.path.join(base, 'H%d' % i)))
         for i in range(ngen):
             jobs.append(ex.submit(gen_case, ctx, i, rng.getrandbits(48), os.path.join(base, 'B%d' % i), False))
         for i in range(nbig):
